@@ -33,6 +33,7 @@ type WMod struct {
 	StartDur  int   `json:"start_dur,omitempty"`
 	StopDur   int   `json:"stop_dur,omitempty"`
 	LifePanic [3]int `json:"life_panic,omitempty"` // C06: panic kind in prep/start/stop (0 none)
+	StopErr   bool   `json:"stop_err,omitempty"`   // the stop routine returns an error
 }
 
 // WItem is one piece of managed work.
@@ -107,6 +108,9 @@ func genWork(rng *rand.Rand, tier, prop string) *WorkPlan {
 		}
 		if prop == "C06" && rng.IntN(12) == 0 {
 			m.LifePanic[rng.IntN(3)] = 1 + rng.IntN(nPanicKinds)
+		}
+		if rng.IntN(8) == 0 {
+			m.StopErr = true
 		}
 		p.Mods = append(p.Mods, m)
 	}
@@ -267,6 +271,10 @@ func (s *workState) lifecycle(i, ph int) func() error {
 			s.stopEndT[i] = simrt.Now()
 		}
 		s.evs = append(s.evs, ev{Seq: simrt.Seq(), T: simrt.Now(), Mod: i, Phase: phaseNames[ph], Kind: "end", OK: m.LifePanic[ph] == 0 || inv != 0, Inv: inv})
+		if ph == 2 && m.StopErr {
+			s.rc.Fault("stop-error")
+			return fmt.Errorf("injected stop error in %s", modName(i))
+		}
 		if k := m.LifePanic[ph]; k != 0 && inv == 0 {
 			s.lifePanics[ph]++
 			s.rc.Fault("lifecycle-panic-" + phaseNames[ph])
@@ -523,6 +531,13 @@ func execWork(prop string, p *WorkPlan, rc *simkit.RunCtx) {
 		return
 	}
 	s.afterStopReturn("Shutdown returned")
+	if s.startErr == nil {
+		for i, m := range s.mods {
+			if m.Online() && !rc.Failed() {
+				rc.Fail("C05.online-after-shutdown", "a module was still online (its work not cancelled, its stop routine not invoked) when Shutdown returned", modName(i))
+			}
+		}
+	}
 	if p.Post && !rc.Failed() {
 		s.post()
 	}
@@ -721,6 +736,27 @@ func checkWork(prop string, p *WorkPlan, rc *simkit.RunCtx) {
 		rc.Probe("all-timely")
 	} else {
 		rc.Probe("late-run")
+	}
+	// tasks and event hooks must not be executed at all once their module has been reported offline
+	for _, r := range s.recs {
+		i := p.Items[r.Item].Mod
+		kind := p.Items[r.Item].Kind
+		off, seen := s.offlineSeenT[i]
+		if !seen || !(kind == "task" || kind == "tasksched" || kind == "hook") {
+			continue
+		}
+		if r.BeginT > off || (r.BeginT == off && r.BeginSeq > s.stopBeginSeq[i]) {
+			restarted := false
+			for _, e := range s.evs {
+				if e.Mod == i && e.Phase == "start" && e.Kind == "begin" && e.Seq > s.stopBeginSeq[i] && e.Seq < r.BeginSeq {
+					restarted = true
+				}
+			}
+			if !restarted && r.BeginT > off {
+				rc.Fail("C05.ran-on-stopped-module", "a task or event hook of a stopped module was executed", fmt.Sprintf("item %d (%s) on %s began at %v, module offline at %v", r.Item, kind, modName(i), r.BeginT, off))
+				return
+			}
+		}
 	}
 	// items begun after stop began (and before any restart) must have seen a cancelled context
 	for _, r := range s.recs {
